@@ -35,7 +35,7 @@ NAME = "switch"
 DRIVER_SRCS = ["switch_driver.cpp"]
 MODEL_FAMILY = "switch"
 MODE = "diff"
-BUDGET = {"quick": 400, "thorough": 6000}
+BUDGET = {"quick": 400, "thorough": 40000}
 NSLOT = 6
 
 # ---------------------------------------------------------------- generator
@@ -99,7 +99,7 @@ def gen(rng, tier, prop):
             t += rng.randint(2, 7)
         else:
             t += rng.choice([1, 1, 2, 3, 5, 8])
-        if rng.random() < 0.08:
+        if rng.random() < 0.04:
             break
     pool = list(keys)
     unmatched_p = 0.25 if has_default else 0.04
@@ -133,6 +133,30 @@ def gen(rng, tier, prop):
         for t in sorted(ts):
             case.append([6, src, t, rng.randint(-9, 30)])
     return case
+
+
+def enumerate_cases(prop):
+    """Exhaustive small space (thorough tier): every key history over {no tick, 1, 2, 9} at five consecutive
+    times, against a fixed input history, with/without default branch and reload: all flip patterns of
+    length <= 5 over a stateful branch, a timer branch and an unmatched key."""
+    acc = dict(sos=0, etick=1, ewake=0, rtick=0, rwake=0, d=1, c=0, m=1, l=0, acc=1, cnt=0, wk=0)
+    timer = dict(sos=0, etick=0, ewake=1, rtick=1, rwake=0, d=2, c=100, m=1, l=0, acc=1, cnt=0, wk=0)
+    ticker = dict(sos=1, etick=1, ewake=1, rtick=0, rwake=1, d=2, c=200, m=1, l=1, acc=0, cnt=0, wk=1)
+    base = [[1, 1, 12], _body_line(0, acc), _body_line(1, timer), _body_line(2, ticker), [3, 1, 0, 0], [3, 2, 1, 0],
+            [6, 1, 1, 5], [6, 1, 3, 6], [6, 1, 4, 7], [6, 1, 6, 8], [6, 1, 9, 9]]
+    import itertools
+    for dflt in (0, 1):
+        for reload in (0, 1):
+            for ks in itertools.product((0, 1, 2, 9), repeat=5):
+                if not any(ks):
+                    continue
+                c = [list(l) for l in base] + [[2, 1, reload]]
+                if dflt:
+                    c.append([4, 2, 1])
+                for i, k in enumerate(ks):
+                    if k:
+                        c.append([6, 0, 2 + i, k])
+                yield c
 
 
 def _malformed(rng):
